@@ -20,6 +20,7 @@ Vocabulary (all defined in `Lemmas/Ser*.lean`, `Spec/ArchiveImage.lean`):
 -/
 import MilaModel.Lemmas.SerObs
 import MilaModel.Lemmas.SerOracle
+import MilaModel.Lemmas.SerSize
 
 namespace Mila.Props.C01
 open Mila Mila.BinArchive Mila.Ser Mila.Spec.Image
@@ -140,6 +141,42 @@ generator's foreign images) reports no violated clause, the declarative relation
 theorem oracle_sound (enc : Bytes → Option Bytes) (e : Endian) (f : Bytes) (K : Content)
     (h : conformsCheck enc e f K = none) : Conforms enc e f K :=
   conformsCheck_sound enc e f K h
+
+/-- **The oracle is complete**: every image that conforms is accepted (no hypothesis on `K` is
+needed: `Conforms` already says that every string present is encodable). -/
+theorem oracle_complete (enc : Bytes → Option Bytes) (e : Endian) (f : Bytes) (K : Content)
+    (h : Conforms enc e f K) : conformsCheck enc e f K = none :=
+  conformsCheck_complete enc e f K h
+
+/-- The executable checker the driver runs on the implementation's images *is* the declarative
+relation. -/
+theorem oracle_iff (enc : Bytes → Option Bytes) (e : Endian) (f : Bytes) (K : Content) :
+    conformsCheck enc e f K = none ↔ Conforms enc e f K :=
+  ⟨conformsCheck_sound enc e f K, conformsCheck_complete enc e f K⟩
+
+/-- The oracle never raises a false alarm on a correct implementation: it accepts the image the
+model of `serialize` produces for every archive of the domain (for the content `contentPlus`). -/
+theorem oracle_accepts_serialize (c : Codec) (D : Str → Prop) (a : BinArchive) (wf : ArchWF a)
+    (hf : c.Faithful D) (dom : InDomain D a) (small : imageSize c a < 2 ^ 32) :
+    ∃ f, serialize c a = .ok f ∧ conformsCheck c.enc a.endian f (contentPlus c a) = none := by
+  obtain ⟨f, hs, _, hc⟩ := Ser.serialize_conforms c D a wf hf dom small
+  exact ⟨f, hs, conformsCheck_complete _ _ _ _ hc⟩
+
+/-- **Closed-form bound on the image size** (the hypothesis `imageSize c a < 2^32` of the theorems
+above, in terms of the archive's own numbers): header, data, padded c-string pool
+(`poolBytes + 3`), four bytes per annotated cell, eight per label, and `|enc s| + 1` bytes
+(`encLen`) per label name and string present (`textBytes`, with repetitions). -/
+theorem imageSize_le (c : Codec) (a : BinArchive) (wf : ArchWF a) :
+    imageSize c a ≤ 0x20 + a.size + (poolBytes c a + 3) + 4 * (archCells a).length
+      + 8 * (a.labels.map (·.2.length)).sum + textBytes c a :=
+  Ser.imageSize_le c a wf
+
+/-- Less than 256 MiB of data, fewer than 2^20 annotations (cells + labels) and less than 256 MiB
+of encoded text (c-strings, label names, strings) give an image smaller than 4 GiB. -/
+theorem imageSize_small (c : Codec) (a : BinArchive) (wf : ArchWF a) (hsize : a.size < 2 ^ 28)
+    (hcount : (archCells a).length + (a.labels.map (·.2.length)).sum < 2 ^ 20)
+    (htext : poolBytes c a + textBytes c a < 2 ^ 28) : imageSize c a < 2 ^ 32 :=
+  Ser.imageSize_small c a wf hsize hcount htext
 
 /-! ### non-vacuity: a concrete archive of the domain (string + c-string + end label, the D1 shape) -/
 
